@@ -729,7 +729,12 @@ func writesThroughSummary(e *provEngine, fns []*ssa.Function, fieldStores bool) 
 			}
 			for _, ws := range writeSites(fn, fieldStores) {
 				if ws.kind == "append" {
-					continue // append is judged at the site where the origin is known
+					// append is judged at the site where the origin is known — except when its base is a
+					// reslice (x[:0], x[:n]) of what the caller handed in: such an append is certain to
+					// write into the caller's backing array (the "filter in place" idiom)
+					if !appendBaseIsReslice(ws.container) {
+						continue
+					}
 				}
 				mark(ws.container)
 			}
@@ -808,4 +813,35 @@ func ssaFuncKey(fn *ssa.Function) string {
 	name = strings.ReplaceAll(name, modPath+"/", "")
 	name = strings.ReplaceAll(name, "*", "")
 	return name
+}
+
+// appendBaseIsReslice reports whether the base of an append is, possibly through the loop that carries it, a slice
+// expression with an upper bound (x[:0], x[:n]): its capacity reaches past its length, so append stores in place.
+func appendBaseIsReslice(v ssa.Value) bool {
+	seen := map[ssa.Value]bool{}
+	var walk func(v ssa.Value) bool
+	walk = func(v ssa.Value) bool {
+		if v == nil || seen[v] {
+			return false
+		}
+		seen[v] = true
+		switch x := v.(type) {
+		case *ssa.Slice:
+			return x.High != nil
+		case *ssa.Phi:
+			for _, e := range x.Edges {
+				if walk(e) {
+					return true
+				}
+			}
+		case *ssa.Call:
+			if b, ok := x.Common().Value.(*ssa.Builtin); ok && b.Name() == "append" && len(x.Common().Args) > 0 {
+				return walk(x.Common().Args[0])
+			}
+		case *ssa.ChangeType:
+			return walk(x.X)
+		}
+		return false
+	}
+	return walk(v)
 }
